@@ -98,7 +98,11 @@ func NewGraphMultiBranch[T any](condition GraphMultiBranchCondition[T], endNodes
 			return nil, err
 		}
 		ret := make([]string, 0, len(ends))
-		for end := range ends {
+		for end, selected := range ends {
+			if !selected {
+				// the condition names the node and says no
+				continue
+			}
 			if !endNodes[end] {
 				return nil, fmt.Errorf("branch invocation returns unintended end node: %s", end)
 			}
@@ -122,7 +126,11 @@ func NewStreamGraphMultiBranch[T any](condition StreamGraphMultiBranchCondition[
 		}
 
 		ret := make([]string, 0, len(ends))
-		for end := range ends {
+		for end, selected := range ends {
+			if !selected {
+				// the condition names the node and says no
+				continue
+			}
 			if !endNodes[end] {
 				return nil, fmt.Errorf("branch invocation returns unintended end node: %s", end)
 			}
